@@ -43,10 +43,8 @@ package model
 //@   requires packetsNonNil(m)
 //@   ensures len(m.SyntaxErrors) >= old(len(m.SyntaxErrors)) && len(m.Packets) == old(len(m.Packets)) && forall(q, 0, len(m.Packets), m.Packets[q] == old(m.Packets[q]))
 //@   ensures [C12:D6-all-resolved] len(m.SyntaxErrors) == old(len(m.SyntaxErrors)) ==> forall(p, 0, len(m.Packets), forall(i, 0, len(m.Packets[p].Fields), resolved(m, m.Packets[p].Fields[i])))
-//@   ensures [C12:D6-all-inline-resolved] len(m.SyntaxErrors) == old(len(m.SyntaxErrors)) ==> forall(p, 0, len(m.Packets), forall(i, 0, len(m.Packets[p].Fields), inlineResolved(m, m.Packets[p].Fields[i])))
 //@   loop 0 invariant m.PacketsMap == entry(m.PacketsMap) && len(m.Packets) == entry(len(m.Packets)) && forall(q, 0, len(m.Packets), m.Packets[q] == entry(m.Packets[q]))
 //@   loop 0 invariant len(m.SyntaxErrors) >= old(len(m.SyntaxErrors)) && (len(m.SyntaxErrors) == old(len(m.SyntaxErrors)) ==> forall(p, 0, rangeindex + 1, forall(i, 0, len(m.Packets[p].Fields), resolved(m, m.Packets[p].Fields[i]))))
-//@   loop 0 invariant len(m.SyntaxErrors) == old(len(m.SyntaxErrors)) ==> forall(p, 0, rangeindex + 1, forall(i, 0, len(m.Packets[p].Fields), inlineResolved(m, m.Packets[p].Fields[i])))
 //@   loop 1 invariant m.PacketsMap == entry(m.PacketsMap) && len(m.Packets) == entry(len(m.Packets)) && forall(q, 0, len(m.Packets), m.Packets[q] == entry(m.Packets[q]))
 //@   loop 1 invariant len(m.SyntaxErrors) >= entry(len(m.SyntaxErrors))
 //@   loop 1 invariant cycleClosed(m, state)
@@ -92,9 +90,9 @@ package model
 
 //@ pred resolved(m *BinaryModel, f *Field) := (typeis(f.Attr, *ObjectFieldAttribute) ==> unbox(f.Attr, *ObjectFieldAttribute).RefPacket != nil) && (typeis(f.Attr, *MatchFieldAttribute) ==> forall(k, 0, len(unbox(f.Attr, *MatchFieldAttribute).MatchPairs), haskey(m.PacketsMap, unbox(f.Attr, *MatchFieldAttribute).MatchPairs[k].Value)))
 
-// One level of inline nesting, lifted to the caller: the references written inside an inline object that a
-// field declares directly. Deeper levels are the same clause of the recursive activation over that inline
-// object's own fields (every inline field list is the `fields` argument of one activation).
+// One level of inline nesting (the references written inside an inline object that a field declares
+// directly). Not used by a contract at present: lifting it to the callers needs the fact that the inline
+// packet a field refers to existed when resolveFields was entered, which the engine cannot state soundly yet.
 //@ pred inlineResolved(m *BinaryModel, f *Field) := typeis(f.Attr, *ObjectFieldAttribute) && unbox(f.Attr, *ObjectFieldAttribute).IsIner && unbox(f.Attr, *ObjectFieldAttribute).RefPacket != nil ==> forall(j, 0, len(unbox(f.Attr, *ObjectFieldAttribute).RefPacket.Fields), resolved(m, unbox(f.Attr, *ObjectFieldAttribute).RefPacket.Fields[j]))
 
 //@ func (*BinaryModel).resolveFields
@@ -103,8 +101,6 @@ package model
 //@   loop 1 invariant m.PacketsMap == old(m.PacketsMap) && len(m.Packets) == old(len(m.Packets)) && forall(q, 0, len(m.Packets), m.Packets[q] == old(m.Packets[q]))
 //@   ensures [C12:D6-resolved-or-reported] len(m.SyntaxErrors) >= old(len(m.SyntaxErrors)) && (len(m.SyntaxErrors) == old(len(m.SyntaxErrors)) ==> forall(i, 0, len(fields), resolved(m, fields[i])))
 //@   loop 0 invariant len(m.SyntaxErrors) >= old(len(m.SyntaxErrors))
-//@   ensures [C12:D6-inline-resolved-or-reported] len(m.SyntaxErrors) == old(len(m.SyntaxErrors)) ==> forall(i, 0, len(fields), inlineResolved(m, fields[i]))
-//@   loop 0 invariant len(m.SyntaxErrors) == old(len(m.SyntaxErrors)) ==> forall(i, 0, rangeindex + 1, inlineResolved(m, fields[i]))
 //@   loop 0 invariant len(m.SyntaxErrors) == old(len(m.SyntaxErrors)) ==> forall(i, 0, rangeindex + 1, typeis(fields[i].Attr, *ObjectFieldAttribute) ==> unbox(fields[i].Attr, *ObjectFieldAttribute).RefPacket != nil)
 //@   loop 0 invariant len(m.SyntaxErrors) == old(len(m.SyntaxErrors)) ==> forall(i, 0, rangeindex + 1, typeis(fields[i].Attr, *MatchFieldAttribute) ==> forall(k, 0, len(unbox(fields[i].Attr, *MatchFieldAttribute).MatchPairs), haskey(m.PacketsMap, unbox(fields[i].Attr, *MatchFieldAttribute).MatchPairs[k].Value)))
 //@   loop 1 invariant len(m.SyntaxErrors) >= entry(len(m.SyntaxErrors)) && (len(m.SyntaxErrors) == entry(len(m.SyntaxErrors)) ==> forall(k, 0, rangeindex + 1, haskey(m.PacketsMap, mf.MatchPairs[k].Value)))
@@ -116,16 +112,16 @@ package model
 // marked graph has a rank (wf.rank below) is the textbook white-path argument and stays assumed.
 //@ pred fieldSuccDone(m *BinaryModel, f *Field, state map[*Packet]int) := (typeis(f.Attr, *ObjectFieldAttribute) && unbox(f.Attr, *ObjectFieldAttribute).RefPacket != nil ==> state[unbox(f.Attr, *ObjectFieldAttribute).RefPacket] == 2) && (typeis(f.Attr, *MatchFieldAttribute) ==> forall(k, 0, len(unbox(f.Attr, *MatchFieldAttribute).MatchPairs), haskey(m.PacketsMap, unbox(f.Attr, *MatchFieldAttribute).MatchPairs[k].Value) ==> state[m.PacketsMap[unbox(f.Attr, *MatchFieldAttribute).MatchPairs[k].Value]] == 2))
 //@ pred succDone(m *BinaryModel, p *Packet, state map[*Packet]int) := forall(j, 0, len(p.Fields), fieldSuccDone(m, p.Fields[j], state))
-//@ pred cycleClosed(m *BinaryModel, state map[*Packet]int) := forallkey(q, state, q != nil && state[q] == 2 ==> succDone(m, q, state))
+//@ pred cycleClosed(m *BinaryModel, state map[*Packet]int) := forallkey(q, state, q != nil && existed(q) && state[q] == 2 ==> succDone(m, q, state))
 //@ func (*BinaryModel).containsCycle
 //@   requires p != nil && state != nil
 //@   requires cycleClosed(m, state)
 //@   ensures [C11:cycle-closed] cycleClosed(m, state)
-//@   ensures [C11:cycle-monotone] forallkeyold(q, state, old(state[q]) == 2 ==> state[q] == 2)
+//@   ensures [C11:cycle-monotone] forallkeyold(q, state, existed(q) && old(state[q]) == 2 ==> state[q] == 2)
 //@   ensures [C11:cycle-edges] !result ==> state[p] == 2
-//@   loop 0 invariant cycleClosed(m, state) && forallkeyold(q, state, old(state[q]) == 2 ==> state[q] == 2)
+//@   loop 0 invariant cycleClosed(m, state) && forallkeyold(q, state, existed(q) && old(state[q]) == 2 ==> state[q] == 2)
 //@   loop 0 invariant forall(j, 0, rangeindex + 1, fieldSuccDone(m, p.Fields[j], state))
-//@   loop 1 invariant cycleClosed(m, state) && forallkeyold(q, state, old(state[q]) == 2 ==> state[q] == 2) && forallkeyentry(q, state, entry(state[q]) == 2 ==> state[q] == 2)
+//@   loop 1 invariant cycleClosed(m, state) && forallkeyold(q, state, existed(q) && old(state[q]) == 2 ==> state[q] == 2) && forallkeyentry(q, state, existed(q) && entry(state[q]) == 2 ==> state[q] == 2)
 //@   loop 1 invariant forall(k, 0, rangeindex + 1, haskey(m.PacketsMap, unbox(f.Attr, *MatchFieldAttribute).MatchPairs[k].Value) ==> state[m.PacketsMap[unbox(f.Attr, *MatchFieldAttribute).MatchPairs[k].Value]] == 2)
 //@   terminates-assumed every call either returns at once or marks a so far unmarked packet in state; the set of packets is finite
 
